@@ -62,7 +62,7 @@ fn rust_str(s: &str) -> String {
             '\n' => o.push_str("\\n"),
             '\r' => o.push_str("\\r"),
             '\t' => o.push_str("\\t"),
-            c if (c as u32) < 0x20 || c as u32 == 0x7f => o.push_str(&format!("\\u{{{:x}}}", c as u32)),
+            c if (c as u32) < 0x20 || c as u32 >= 0x7f => o.push_str(&format!("\\u{{{:x}}}", c as u32)),
             c => o.push(c),
         }
     }
